@@ -50,7 +50,7 @@ Frame(sid, kind, size, len, code, rpc, mid) ==
 
 EvWire(what, dir, f) ==
   [ev |-> what, dir |-> dir, sid |-> f.sid, kind |-> f.kind, size |-> f.size, len |-> f.len, rpc |-> f.rpc,
-   rev |-> 1, win |-> W, method |-> "m", md |-> MD0, code |-> f.code, msg |-> "", det |-> "0"]
+   rev |-> 1, win |-> W, method |-> "m", mclass |-> "ok", mshape |-> "bidi", revs |-> <<0, 1>>, md |-> MD0, code |-> f.code, msg |-> "", det |-> "0"]
 
 EvOpStart(end, r, op, idx, size, code) ==
   [ev |-> "op.start", end |-> end, rpc |-> r, act |-> "m", op |-> op, shape |-> "bidi", timeout |-> 0, method |-> "m",
